@@ -467,3 +467,61 @@ def run_sliceoff(prog, ctx=None):
             res.ob("%s:%s" % (f.qn, norm(show(e, f))[:70]), has_off, f, e.get("l", 0),
                    "" if has_off else "copies %s->_len bytes from the start of the buffer, not from %s->_off: consumed bytes reappear and the tail is lost" % (S, S))
     return res
+
+
+def run_bufinstall(prog, ctx=None):
+    """BUFINSTALL: a buffer obtained from detach() or an allocation is installed in a handle (`H->_buf = b`) only where it is
+    known to be non-null: a refused detach must leave the handle with the buffer it had (trace partition on the function's own
+    null tests of b; an installed null makes the handle read empty and leaks its reference)."""
+    from .rules_path import null_partitioned, tested_pointers
+    res = Result("BUFINSTALL")
+    files = set(ctx.get("files", [])) if ctx and ctx.get("files") else None
+    n = 0
+    for f in funcs_of(prog, files):
+        producers = set()
+        for b, i, nn in f.walk_all():
+            pairs = []
+            if nn.get("k") == "bin" and nn.get("op") == "=":
+                l = strip(nn["a"], lvalue_to_rvalue=False)
+                if l.get("k") == "ref" and "id" in l["d"]:
+                    pairs.append((l["d"]["id"], nn["b"]))
+            elif nn.get("k") == "decl":
+                for v in nn["vars"]:
+                    if v.get("init") is not None:
+                        pairs.append((v["id"], v["init"]))
+            for vid, rhs in pairs:
+                c = strip(rhs, all_casts=True)
+                if c.get("k") == "call":
+                    nm = callee_name(c) or ""
+                    cal = strip(c["callee"], all_casts=True) if c.get("callee") is not None else {}
+                    if nm in FRESH_CALLS or (cal.get("k") == "mem" and cal.get("f") == "detach"):
+                        producers.add(vid)
+        if not producers:
+            continue
+        stores = []
+        for b, i, e in f.elements():
+            for nn in walk_own(e):
+                if nn.get("k") == "bin" and nn.get("op") == "=":
+                    l = strip(nn["a"], lvalue_to_rvalue=False)
+                    v = strip(nn["b"], all_casts=True)
+                    if l.get("k") == "mem" and l.get("f") == "_buf" and v.get("k") == "ref" and v["d"].get("id") in producers:
+                        stores.append((b, i, nn, v["d"]["id"], v["d"]["n"]))
+        if not stores:
+            continue
+        tv = sorted(tested_pointers(f))
+        an = null_partitioned(prog, f)
+        for b, i, nn, vid, vname in stores:
+            n += 1
+            if vid not in tv:
+                res.ob("%s:%s" % (f.qn, norm(show(nn, f))[:40]), False, f, nn.get("l", f.line),
+                       "%s installs `%s`, the result of detach()/an allocation, in the handle without ever testing it for null" % (f.qn, vname))
+                continue
+            k = tv.index(vid)
+            keys = [key for key in an.pre_parts.get((b.id, i), {}) if isinstance(key, str) and len(key) > k]
+            ok = bool(keys) and all(key[k] == "P" for key in keys)
+            res.ob("%s:%s" % (f.qn, norm(show(nn, f))[:40]), ok, f, nn.get("l", f.line),
+                   "" if ok else "%s: `%s` runs on a path where `%s` (result of detach()/an allocation) may be null: the handle loses its buffer when the request is refused" % (
+                       f.qn, norm(show(nn, f))[:40], vname))
+    if n < 5:
+        raise Broken("BUFINSTALL: only %d installs of produced buffers" % n)
+    return res
